@@ -197,7 +197,7 @@ func stateArg(e pevent) string {
 
 // C12.R1-R4: typestate rules over all notification sequences.
 func c12Traces(c *Ctx) {
-	c.explain("C12.R1-R4 the step goroutine (run() and everything it calls, inlined) is explored path-sensitively: every select case, every unknown branch and both outcomes of every fallible call are forked; each distinct notification sequence must (R1) mention only declared stages and finish no stage before the stages with a declared And-edge into it, (R2) report only declared (stage, output) pairs, (R3) finish no stage twice and never both finish and fail a stage, (R4) contain exactly one completion, reported with state=finished")
+	c.explain("C12.R1-R4 the step goroutine (run() and everything it calls, inlined) is explored path-sensitively: every select case, every unknown branch and both outcomes of every fallible call are forked; each distinct notification sequence must (R1) mention only declared stages and finish no stage before the stages with a declared And-edge into it, (R2) report only declared (stage, output) pairs, (R3) finish no stage twice and never both finish and fail a stage, (R4) contain exactly one completion, reported with state=finished, (R9) report every stage that has a declared And-edge from a finished stage as finished or impossible before the goroutine ends")
 	for _, prov := range []string{"plugin", "foreach"} {
 		ts := c.stepTraces(prov)
 		c.Stats["traces_"+prov] = len(ts.traces)
@@ -341,6 +341,24 @@ func c12Traces(c *Ctx) {
 				d = "the completion is reported while the step's state is not `finished`"
 			}
 			c.verdict(d == "", "C12.R4", key, pos, "exactly one completion, state finished", d, path...)
+			// R9: no successor stage is left in limbo. When a stage is reported finished, every stage with a declared
+			// And-edge from it has that dependency resolved; unless the step later reports it finished or impossible, its DAG
+			// node stays pending for ever, and so does everything that waits for it to finish "one way or the other"
+			// (!wait-optional / !ordisabled on <step>.disabled.output, for instance).
+			var r9 []string
+			for s := range fin {
+				sd := stages[s]
+				if sd == nil {
+					continue
+				}
+				for nx, kind := range sd.nexts {
+					if kind == "AndDependency" && fin[nx] == 0 && !failed[nx] {
+						r9 = append(r9, fmt.Sprintf("stage %s is reported finished but its declared successor %s is never reported finished or impossible", s, nx))
+					}
+				}
+			}
+			sort.Strings(r9)
+			c.verdict(len(r9) == 0, "C12.R9", key, pos, "every And-successor of a finished stage is accounted for", strings.Join(r9, "; "), path...)
 		}
 	}
 }
